@@ -543,53 +543,62 @@ Fixpoint tt_loop (s : str) (t : ttype) (amp_count : nat) (last_amp : bool) : tty
   end.
 Definition target_type (target : str) : ttype * str := tt_loop target tt_init 0 false.
 
-Definition process_privmsg_notice (s : shared) (c : conn) (targets : list str) (text : str)
-           (notice : bool) : res hres :=
+(* who hears a message to channel [co] addressed with target type [ty] (before removing the sender) *)
+Definition audience (ty : ttype) (co : chan) : list str :=
+  let m := ch_modes co in
+  if tt_special ty then
+    elements ((if tt_founder ty then cm_founders m else ∅)
+              ∪ (if tt_protected ty then cm_protecteds m else ∅)
+              ∪ (if tt_oper ty then cm_operators m else ∅)
+              ∪ (if tt_half ty then cm_half_operators m else ∅)
+              ∪ (if tt_voice ty then cm_voices m else ∅))
+  else member_names co.
+
+(* the three speaking restrictions, in the order the code tests them *)
+Definition can_send (co : chan) (nick source : str) : bool :=
+  let m := ch_modes co in
+  let mr := ch_users co !! nick in
+  ((negb (cm_noext m) && negb (cm_secret m)) || is_Some_b mr)
+  && negb (banned m source)
+  && (negb (cm_moderated m) || match mr with Some r => rk_is_voice r | None => false end).
+
+(* one target of PRIVMSG / NOTICE: lines queued, and whether something was delivered *)
+Definition privmsg_one (s : shared) (c : conn) (nick : str) (text : str) (notice : bool)
+           (target : str) : res (outl * bool) :=
   let client := client_name c in
-  let! nick := own_nick c in
   let verb_s := if notice then lit "NOTICE " else lit "PRIVMSG " in
   let err (l : str) : outl := if notice then [] else [me l] in
+  let line := from (c_source c) (verb_s ++ target ++ lit " :" ++ text) in
+  let '(ty, chan_str) := target_type target in
+  if tt_channel ty then
+    match chans s !! chan_str with
+    | Some co =>
+        if can_send co nick (c_source c) then
+          let! sent := send_all s (List.filter (fun n => negb (str_eqb n nick)) (audience ty co))
+                                line in
+          Ok (sent, true)
+        else Ok (err (err_cannotsendtochan client chan_str), false)
+    | None => Ok (err (err_nosuchchannel client chan_str), false)
+    end
+  else
+    match users s !! target with
+    | Some u =>
+        Ok ([(u_conn u, line)]
+              ++ (if notice then [] else
+                    match u_away u with
+                    | Some a => [me (rpl_away client target a)]
+                    | None => []
+                    end), true)
+    | None => Ok (err (err_nosuchnick client target), false)
+    end.
+
+Definition process_privmsg_notice (s : shared) (c : conn) (targets : list str) (text : str)
+           (notice : bool) : res hres :=
+  let! nick := own_nick c in
   let! (o, done) :=
     rfold (fun '(o, done) target =>
-             let line := from (c_source c) (verb_s ++ target ++ lit " :" ++ text) in
-             let '(ty, chan_str) := target_type target in
-             if tt_channel ty then
-               match chans s !! chan_str with
-               | Some co =>
-                   let m := ch_modes co in
-                   let mr := ch_users co !! nick in
-                   if negb ((negb (cm_noext m) && negb (cm_secret m)) || is_Some_b mr)
-                   then Ok (o ++ err (err_cannotsendtochan client chan_str), done)
-                   else if banned m (c_source c)
-                   then Ok (o ++ err (err_cannotsendtochan client chan_str), done)
-                   else if negb (negb (cm_moderated m)
-                                 || match mr with Some r => rk_is_voice r | None => false end)
-                   then Ok (o ++ err (err_cannotsendtochan client chan_str), done)
-                   else
-                     let rcpts :=
-                       if tt_special ty then
-                         elements ((if tt_founder ty then cm_founders m else ∅)
-                                   ∪ (if tt_protected ty then cm_protecteds m else ∅)
-                                   ∪ (if tt_oper ty then cm_operators m else ∅)
-                                   ∪ (if tt_half ty then cm_half_operators m else ∅)
-                                   ∪ (if tt_voice ty then cm_voices m else ∅))
-                       else member_names co in
-                     let! sent := send_all s (List.filter (fun n => negb (str_eqb n nick)) rcpts)
-                                           line in
-                     Ok (o ++ sent, true)
-               | None => Ok (o ++ err (err_nosuchchannel client chan_str), done)
-               end
-             else
-               match users s !! target with
-               | Some u =>
-                   Ok (o ++ [(u_conn u, line)]
-                         ++ (if notice then [] else
-                               match u_away u with
-                               | Some a => [me (rpl_away client target a)]
-                               | None => []
-                               end), true)
-               | None => Ok (o ++ err (err_nosuchnick client target), done)
-               end) (dedup_str targets) ([], false) in
+             let! (o1, d1) := privmsg_one s c nick text notice target in
+             Ok (o ++ o1, done || d1)) (dedup_str targets) ([], false) in
   let! _ := if done then (let! _ := get_user s nick in Ok tt) else Ok tt in
   hr s c o.
 
